@@ -364,6 +364,7 @@ type req6abs struct {
 	deep  bool   // an IA_PD whose hint lies deep inside the configured prefix pool (deepPool)
 	known bool   // the client is the one listed in the generated lease files (00:11:22:33:44:55)
 	ias   string // "" (an IA_NA or none, at random) | "ta" (IA_TA only) | "ta+pd" | "na+ta"
+	sid2  string // a SECOND Server Identifier option further down ("" = none): the message's server identifier is the one the codec reads, the first
 }
 
 func sidFor(rel string, ownDUID []byte) dhcpv6.DUID {
@@ -440,6 +441,9 @@ func buildPlug6(a req6abs, ownDUID []byte, r *rand.Rand) (dhcpv6.DHCPv6, dhcpv6.
 	if d := sidFor(a.sid, ownDUID); d != nil {
 		m.AddOption(dhcpv6.OptServerID(d))
 	}
+	if d := sidFor(a.sid2, ownDUID); a.sid2 != "" && d != nil {
+		m.AddOption(dhcpv6.OptServerID(d))
+	}
 	if a.ias == "" && r.Intn(2) == 0 {
 		m.AddOption(&dhcpv6.OptIANA{IaId: [4]byte{0, 0, 0, 1}})
 	}
@@ -466,6 +470,14 @@ func buildPlug6(a req6abs, ownDUID []byte, r *rand.Rand) (dhcpv6.DHCPv6, dhcpv6.
 }
 
 // ---- observation -------------------------------------------------------------------------------
+
+func longDomains(n int) []string {
+	var ds []string
+	for i := 0; i < n; i++ {
+		ds = append(ds, fmt.Sprintf("dom%02d-abcdefghij.example", i))
+	}
+	return ds
+}
 
 func opts4(p *dhcpv4.DHCPv4) map[int][]byte {
 	m := map[int][]byte{}
@@ -661,7 +673,7 @@ func observe6(t *Trace, pl string, args []string, h handler.Handler6, a req6abs,
 		}
 	}
 	t.Emit(Ev{"ev": "h", "pl": pl, "proto": 6, "cfg": cfg, "args": args,
-		"req": Ev{"type": a.typ, "oro": intsOrEmpty(a.oro), "sid": a.sid, "depth": a.depth, "nocid": a.nocid},
+		"req": Ev{"type": a.typ, "oro": intsOrEmpty(a.oro), "sid": a.sid, "sid2": a.sid2, "depth": a.depth, "nocid": a.nocid},
 		"pre": Ev{"type": "offer", "yi": false, "lease": false}, "obs": obs})
 }
 
@@ -852,6 +864,14 @@ func runPluginOne(t *Trace, pl string, proto int, args []string, reqs string, se
 				}
 			}
 		}
+		// two Server Identifier options: another server's first and this server's last, and the other way round
+		for typ := 1; typ <= 11; typ++ {
+			for _, two := range [][2]string{{"differs", "same"}, {"same", "differs"}, {"same", "same"}, {"otherkind", "same"}} {
+				for depth := 0; depth <= 2; depth++ {
+					observe6(t, pl, args, h6, req6abs{typ: typ, oro: oros[r.Intn(len(oros))], sid: two[0], sid2: two[1], depth: depth}, ownDUID, r, cfg)
+				}
+			}
+		}
 		return
 	}
 	for _, typ := range []int{1, 3, 5, 11} {
@@ -885,6 +905,9 @@ func runSidChainOne(t *Trace, other string, proto int, args []string, seed int64
 			return
 		}
 		own := net.ParseIP(sidArgs[0]).To4()
+		if other == "server_id" {
+			own = net.ParseIP(args[0]).To4() // listed twice: the identifier configured last is this server's
+		}
 		pres := []pre4abs{{"offer", false, false, false}, {"offer", true, false, false}, {"ack", true, true, false}, {"ack", false, false, false}}
 		bat := []req4abs{
 			{mt: 1, hlen: 6, siaddr: "absent", opt54: "absent"},
@@ -928,6 +951,9 @@ func runSidChainOne(t *Trace, other string, proto int, args []string, seed int64
 		return
 	}
 	ownDUID := expected6("server_id", sidArgs)[2]
+	if other == "server_id" {
+		ownDUID = expected6("server_id", args)[2] // listed twice: one identifier, the one configured last
+	}
 	for _, a := range []req6abs{{typ: 1, oro: []int{23, 59, 60}, sid: "none"}, {typ: 3, oro: []int{23}, sid: "same"}, {typ: 11, oro: []int{59}, sid: "none"},
 		{typ: 1, sid: "none", depth: 2, oro: []int{60}}, {typ: 5, sid: "same", depth: 1}} {
 		req, resp, err := buildPlug6(a, ownDUID, r)
@@ -1035,6 +1061,8 @@ func tableConfigs() []struct {
 		{"router", 4, []string{"192.168.1.254", "192.168.1.1", "192.168.1.129"}}, {"dns", 4, []string{"9.9.9.9", "1.1.1.1", "8.8.8.8", "1.1.1.1"}},
 		{"dns", 6, []string{"2606:4700:4700::1111", "2001:4860:4860::8888", "2001:4860:4860::8844"}},
 		{"searchdomains", 4, []string{"z.example.org", "a.example.org", "m.example.org"}}, {"searchdomains", 6, []string{"z.example.org", "a.example.org"}},
+		// a search list whose encoding is longer than one option instance can hold (255 bytes): the whole list, in order
+		{"searchdomains", 4, longDomains(12)}, {"searchdomains", 6, longDomains(12)}, {"searchdomains", 4, longDomains(25)},
 		{"staticroute", 4, []string{"192.168.7.0/25,10.0.0.9", "10.1.0.0/16,10.0.0.1", "0.0.0.0/0,10.0.0.254"}},
 		{"staticroute", 4, []string{"10.1.130.3/17,10.0.0.1"}}, {"staticroute", 4, []string{"192.168.1.77/26,10.0.0.9", "172.17.0.0/12,10.0.0.1", "10.9.8.7/16,10.0.0.2"}},
 		{"server_id", 4, []string{"::ffff:192.0.2.1"}}, {"server_id", 4, []string{"0:0:0:0:0:ffff:c000:201"}},
@@ -1156,9 +1184,7 @@ func runPlugins(args []string) error {
 		}
 	} else if *mode == "sidchain" {
 		for _, c := range tableConfigs() {
-			if c.pl != "server_id" {
-				jobs = append(jobs, job{c.pl, c.proto, c.args, "sidchain"})
-			}
+			jobs = append(jobs, job{c.pl, c.proto, c.args, "sidchain"}) // (server_id itself too: the plugin listed twice)
 		}
 	} else {
 		kinds := argKinds(*dir)
